@@ -502,6 +502,120 @@ Definition pcm_seek (s : vfs) (pos : Z) : Z * vfs :=
         (0, seek_skip (pkt_count (v_rem s3) + length (v_q s3) + 3) s3 pos)
   end.
 
+(* ---- lapped seeks -------------------------------------------------------------- *)
+
+(* _fetch_and_process_packet(vf, NULL, readp=1, spanp=0): as fetch, but the first page of another link
+   ends the data (the page has been consumed, nothing else is touched) *)
+Fixpoint fetch_ns (fuel : nat) (s : vfs) : Z * vfs :=
+  match fuel with
+  | O => (OUT_OF_FUEL, s)
+  | S f =>
+      let s := make_ready s in
+      if (v_rs s =? INITSET) && (match v_q s with [] => false | _ => true end) then
+        match v_q s with
+        | [] => (OUT_OF_FUEL, s)
+        | p :: q' =>
+            let s1 := set_q s q' (v_fresh s) (v_pno s + 1) in
+            match pk_W p with
+            | Some w =>
+                let s2 := process_audio (set_q s q' (v_fresh s) (v_pno s)) p w in
+                (1, set_q s2 (v_q s2) (v_fresh s2) (v_pno s + 1))
+            | None => fetch_ns f s1
+            end
+        end
+      else
+        match v_rem s with
+        | [] => (OV_EOF_, s)
+        | pg :: rem' =>
+            let s1 := set_rem s rem' in
+            if (v_rs s1 =? INITSET) && negb (v_serial s1 =? pg_serial pg) then
+              if pg_bos pg then (OV_EOF_, s1)
+              else fetch_ns f s1
+            else if v_rs s1 <? STREAMSET then
+              match find_link (v_links s1) (pg_serial pg) 0 with
+              | None => fetch_ns f s1
+              | Some link =>
+                  let s3 := set_rs (os_reset (set_link s1 link (pg_serial pg))) STREAMSET in
+                  fetch_ns f (os_pagein s3 pg)
+              end
+            else fetch_ns f (os_pagein s1 pg)
+        end
+  end.
+
+(* _ov_initset / _ov_initprime: fetch (without spanning links) until the decoder is set up / has samples *)
+Fixpoint initset (fuel : nat) (s : vfs) : Z * vfs :=
+  match fuel with
+  | O => (OUT_OF_FUEL, s)
+  | S f =>
+      if v_rs s =? INITSET then (0, s)
+      else match fetch_ns (fetch_fuel s) s with
+           | (rc, s1) => if rc <? 0 then (rc, s1) else initset f s1
+           end
+  end.
+Fixpoint initprime (fuel : nat) (s : vfs) : Z * vfs :=
+  match fuel with
+  | O => (OUT_OF_FUEL, s)
+  | S f =>
+      if (v_rs s =? INITSET) && negb (dec_pcmout (v_dec s) =? 0) then (0, s)
+      else match fetch_ns (fetch_fuel s) s with
+           | (rc, s1) => if rc <? 0 then (rc, s1) else initprime f s1
+           end
+  end.
+
+(* _ov_getlap's decode loop: take lapsize samples out of the decoder (the reported position does not follow);
+   returns the state and how many were taken *)
+Fixpoint getlap (fuel : nat) (s : vfs) (lapcount lapsize : Z) : vfs * Z :=
+  match fuel with
+  | O => (set_pcm s OUT_OF_FUEL, lapcount)
+  | S f =>
+      if lapcount <? lapsize then
+        let samples := dec_pcmout (v_dec s) in
+        if negb (samples =? 0) then
+          let n := if samples >? lapsize - lapcount then lapsize - lapcount else samples in
+          let (_, d) := dec_read (v_dec s) n in
+          getlap f (set_dec s d) (lapcount + n) lapsize
+        else match fetch_ns (fetch_fuel s) s with
+             | (rc, s1) => if rc =? OV_EOF_ then (s1, lapcount) else getlap f s1 lapcount lapsize
+             end
+      else (s, lapcount)
+  end.
+Definition lap_fuel (s : vfs) : nat := (length (v_rem s) + pkt_count (v_rem s) + length (v_q s) + 3)%nat.
+
+(* _ov_64_seek_lap after its argument checks: set up, take the lapping data (from the decoder's
+   unwindowed second half when decoding cannot supply it), seek, prime, expose the buffer for the splice *)
+Definition seek_lap (seek : vfs -> Z -> Z * vfs) (s : vfs) (pos : Z) : Z * vfs :=
+  match initset (lap_fuel s) s with
+  | (rc, s1) =>
+      if negb (rc =? 0) then (rc, s1)
+      else
+        let n1 := Z.shiftr (li_bs0 (cur_link s1)) (1 + v_hs s1) in
+        let '(s2, cnt) := getlap (lap_fuel s1 + Z.to_nat n1) s1 0 n1 in
+        let s2' := if cnt <? n1 then set_dec s2 (snd (dec_lapout (cur_cfg s2) (v_dec s2))) else s2 in
+        match seek s2' pos with
+        | (rc, s3) =>
+            if negb (rc =? 0) then (rc, s3)
+            else match initprime (lap_fuel s3) s3 with
+                 | (rc, s4) =>
+                     if negb (rc =? 0) then (rc, s4)
+                     else (0, set_dec s4 (snd (dec_lapout (cur_cfg s4) (v_dec s4))))
+                 end
+        end
+  end.
+
+(* ov_pcm_seek_lap / ov_pcm_seek_page_lap / ov_raw_seek_lap *)
+Definition pcm_seek_lap (s : vfs) (pos : Z) : Z * vfs :=
+  if v_rs s <? OPENED then (OV_EINVAL_, s)
+  else if (pos <? 0) || (pos >? pcm_total s) then (OV_EINVAL_, s)
+  else seek_lap pcm_seek s pos.
+Definition pcm_seek_page_lap (s : vfs) (pos : Z) : Z * vfs :=
+  if v_rs s <? OPENED then (OV_EINVAL_, s)
+  else if (pos <? 0) || (pos >? pcm_total s) then (OV_EINVAL_, s)
+  else seek_lap pcm_seek_page s pos.
+Definition raw_seek_lap (s : vfs) (pos : Z) : Z * vfs :=
+  if v_rs s <? OPENED then (OV_EINVAL_, s)
+  else if (pos <? 0) || (pos >? file_end s) then (OV_EINVAL_, s)
+  else seek_lap raw_seek s pos.
+
 (* ov_halfrate(vf, flag): refused (state untouched) when switching on and some
    link has 64-sample short blocks; otherwise the flag is set on every link,
    then a running decoder is dumped and the position re-sought *)
